@@ -542,3 +542,9 @@ MUTANTS = [
 # SESSION7 additions to the claim (clauses added in DESIGN section 12)
 CLAIM['technique'] += '; piece-loop rule (remainder and data position move together, linear values + Fourier-Motzkin)'
 CLAIM['text'] += ' C18-j: the bundled backend feeds long updates piecewise with the data pointer advancing by each piece.'
+
+MUTANTS += [
+    {'id': 'm18j', 'desc': 'piece loop no longer advances the data pointer (after seeded c18r7)', 'file': 'src/lib/hash/bundled/libsha.c',
+     'old': """            message += piece;
+            left -= piece;""", 'new': """            left -= piece;""", 'expect': 'R4.piece-loop lib_hash_update'},
+]
